@@ -9,6 +9,13 @@ if ! ( cd harness && cargo build --profile verif -q -p llgv --bin check ) >&2; t
   echo "build failed" >&2
   exit 2
 fi
+if [ "$1" = "C20" ]; then
+  # C20 additionally needs the same binary with debug assertions and overflow checks
+  if ! ( cd harness && cargo build --profile verifchk -q -p llgv --bin check ) >&2; then
+    echo "build (verifchk) failed" >&2
+    exit 2
+  fi
+fi
 "$CARGO_TARGET_DIR/verif/check" "$@"
 rc=$?
 if [ $rc -ne 0 ] && [ $rc -ne 1 ]; then
